@@ -29,13 +29,21 @@ theorem step_error_eq {s : Srv} (h : Inv s) (m : Mid) (msg : Nat) :
     ∃ s', step s (.error m msg) = .ok s' ∧ s'.clients = s.clients ∧ s'.tasks = s.tasks ∧
       s'.m2t = s.m2t ∧ s'.boxes = s.boxes ∧ s'.counter = s.counter ∧ s'.running = s.running ∧
       s'.closed = s.closed ∧
-      (match get? s.m2t m with
+      (match get? s.boxes m with
        | none => s'.out = []
-       | some t => ∃ c, get? s.tasks t = some (m, c) ∧ s'.out = [.errorTo c msg]) := by
-  rcases routeUp_eq h.clearOut m (fun c => .errorTo c msg) with ⟨hm, e1⟩ | ⟨t, c, hm, h1, e1⟩
-  · have hm' : get? s.m2t m = none := hm
-    exact ⟨_, e1, rfl, rfl, rfl, rfl, rfl, rfl, rfl, by simp [hm']⟩
-  · have hm' : get? s.m2t m = some t := hm
-    exact ⟨_, e1, rfl, rfl, rfl, rfl, rfl, rfl, rfl, by simp [hm', Srv.emit]; exact h1⟩
+       | some _ => ∃ t c ts, get? s.m2t m = some t ∧ get? s.tasks t = some (m, c) ∧
+           get? s.clients c = some ts ∧ t ∈ ts ∧ s'.out = [.errorTo c msg]) := by
+  rcases handleError_eq h.clearOut m msg with ⟨hb, e1⟩ | ⟨b, t, c, ts, hb, hm, h1, hc, ht, e1⟩
+  · have hb' : get? s.boxes m = none := hb
+    exact ⟨_, e1, rfl, rfl, rfl, rfl, rfl, rfl, rfl, by simp [hb']⟩
+  · have hb' : get? s.boxes m = some b := hb
+    exact ⟨_, e1, rfl, rfl, rfl, rfl, rfl, rfl, rfl,
+      by simp only [hb']; exact ⟨t, c, ts, hm, h1, hc, ht, by simp [Srv.emit]⟩⟩
+
+theorem preDrain_logs (logs : List Nat) (rest : List CMsg) :
+    preDrain (logs.map CMsg.log ++ rest) = preDrain rest := by
+  induction logs with
+  | nil => rfl
+  | cons x xs ih => simpa [preDrain] using ih
 
 end BqVerif.Server
